@@ -56,6 +56,11 @@ func init() {
 	specs["C08"] = dkvSpec(8000, 400000, "checkpoint", "verify-restore", "switch")
 	specs["C09"] = dkvSpec(2500, 100000, "gc", "retain", "verify-restore")
 	specs["C18"] = dkvSpec(8000, 400000)
+	specs["C10"] = spec{Harness: "H-TIMER", QuickRuns: 10000, QuickWallS: 50, ThoroughRuns: 500000, ThoroughWallS: 1200, Chunk: 250,
+		MandatoryProbes: []string{"timers-fired", "restore", "repeated-set"},
+		Real:            []string{"operator.TimerRegistry", "operator.TimerStore", "operator.KeyGroupPriorityQueue", "util/ds.PartitionedPriorityQueue", "util/ds.SortedCache", "util/ds.Heap", "util/binu", "partitioning.KeySpace", "dkv.DB (all of dkv/)"},
+		Stub:            append([]string{"operator event loop: the harness task calls SetTimer/AdvanceWatermark sequentially as the loop does"}, dkvStub...),
+		Rule:            "each run = one seeded case (timer cache 1 byte..unbounded, 1-8 key groups, 1-3 senders, DKV sizing swarm; 10-260 set/advance/checkpoint+restore operations incl. identical repeats and equal timestamps) under one seeded interleaving with the DB's background tasks; oracle = reference set of pending timers; non-trivial = finished with >= 1 context switch and timers fired; distinct = distinct released-task sequence"}
 	specs["C20"] = spec{Harness: "H-BATCH", QuickRuns: 30000, QuickWallS: 50, ThoroughRuns: 1500000, ThoroughWallS: 1200, Chunk: 500,
 		MandatoryProbes: []string{"flush-size", "flush-timeout", "flush-explicit", "stale-token", "fetch"},
 		Real:            []string{"batching.EventBatcher", "batching.ReorderFetcher", "batching.ReorderBuffer", "clocks.SystemTimer on the bubble's fake clock"},
